@@ -8,7 +8,7 @@ import emd
 PROPERTY = 'C17'
 FUNCTIONS = ['emd.cycles.kdt_match', 'emd.cycles._unique_inds']
 BOUNDS = {
-    'quick': 'x with <= 3 rows and y with <= 3 rows of one symbolic real feature (ties allowed, arbitrary order), K in 1..3 (3x3 rows at K = 3: a row handed out in layer j must stay unavailable in layer j+2), '
+    'quick': 'x with <= 3 rows and y with <= 3 rows of one symbolic real feature (ties allowed, arbitrary order), K in 1..3, including x longer than y with K below the number of y rows (3x2 at K = 1: the neighbour relation is not symmetric) (3x3 rows at K = 3: a row handed out in layer j must stay unavailable in layer j+2), '
              'distance bound in {inf, symbolic positive}',
     'thorough': 'x <= 3 rows, y <= 4 rows; additionally 2 features (2x3 rows, squared distances, exact sqrt) and K up to 4',
 }
@@ -24,10 +24,10 @@ OPTS = {'quick': {'sample_every': 13}, 'thorough': {'sample_every': 29}}
 def configs(tier):
     out = []
     if tier == 'quick':
-        grid = [(2, 2, 1, 'inf'), (2, 3, 1, 'inf'), (2, 3, 2, 'inf'), (3, 3, 2, 'inf'), (3, 2, 2, 'inf'), (2, 3, 3, 'inf'), (3, 3, 3, 'inf'),
+        grid = [(2, 2, 1, 'inf'), (2, 3, 1, 'inf'), (2, 3, 2, 'inf'), (3, 3, 2, 'inf'), (3, 2, 2, 'inf'), (3, 2, 1, 'inf'), (2, 3, 3, 'inf'), (3, 3, 3, 'inf'),
                 (2, 3, 2, 'sym'), (3, 3, 1, 'sym')]
     else:
-        grid = [(2, 3, 1, 'inf'), (3, 3, 2, 'inf'), (3, 4, 2, 'inf'), (3, 4, 3, 'inf'), (2, 4, 4, 'inf'), (3, 3, 3, 'sym'),
+        grid = [(2, 3, 1, 'inf'), (3, 3, 2, 'inf'), (3, 4, 2, 'inf'), (3, 4, 3, 'inf'), (2, 4, 4, 'inf'), (3, 2, 1, 'inf'), (4, 3, 2, 'inf'), (3, 3, 3, 'sym'),
                 (3, 4, 2, 'sym'), (3, 3, 1, 'sym')]
     for nx, ny, K, b in grid:
         out.append(('x%d-y%d-K%d-bound%s' % (nx, ny, K, b), {'nx': nx, 'ny': ny, 'K': K, 'bound': b, 'nf': 1}))
